@@ -265,7 +265,7 @@ class MSys:
         if k == "setxyz":
             return "coords[i]="
         if k == "xbonds":
-            what = {"m": "members", "f": "foreign-atom", "e": "nothing"}[op[3]]
+            what = {"m": "members", "f": "foreign-atom", "e": "nothing", "fa1": "foreign-atom", "f2": "both-ends-foreign", "f2m": "both-ends-foreign", "mf2": "both-ends-foreign"}[op[3]]
             return f"{op[1]}_bonds({what},{ARG_CLASS[op[2]]})"
         if k == "rmsub":
             return "remove_substituent"
@@ -743,6 +743,15 @@ class MSys:
             if n >= need:
                 for akind in ak:
                     ops.append(("xbonds", "append", akind, which))
+        # per bond: how many end points are foreign AT THE MOMENT it is processed (2; 2 then 1; a1 only; 0 then 2)
+        for which, need in (("f2", 0), ("f2m", 1), ("fa1", 1), ("mf2", 2)):
+            if n >= need:
+                if self.full or which in ("f2", "mf2"):
+                    ops.append(("xbonds", "extend", "list", which))
+                if self.full or which in ("f2m", "fa1"):
+                    ops.append(("xbonds", "append", "list", which))
+                if self.full:
+                    ops.append(("xbonds", "extend", "gen", which))
         # in-place writes of one value (the partners of the state must not see them)
         for i in range(n) if self.full else sorted({0, n - 1} & set(range(n))):
             ops.append(("setxyz", i))
@@ -1102,6 +1111,24 @@ class MSys:
                     bl = [Bond(obj(n - 1), f1), Bond(f1, f2)]
                     new = [(f1, "F"), (f2, "Cl")]
                     newpairs = lambda ids: [_pair(aid_at(n - 1), ids[0]), _pair(ids[0], ids[1])]
+            elif which in ("f2", "f2m", "fa1", "mf2"):
+                validity = "either"
+                if which == "f2":
+                    bl = [Bond(f1, f2)]
+                    new = [(f1, "F"), (f2, "Cl")]
+                    newpairs = lambda ids: [_pair(ids[0], ids[1])]
+                elif which == "f2m":
+                    bl = [Bond(f1, f2), Bond(obj(0), f1)]
+                    new = [(f1, "F"), (f2, "Cl")]
+                    newpairs = lambda ids: [_pair(ids[0], ids[1]), _pair(aid_at(0), ids[0])]
+                elif which == "fa1":
+                    bl = [Bond(f1, obj(n - 1))]
+                    new = [(f1, "F")]
+                    newpairs = lambda ids: [_pair(ids[0], aid_at(n - 1))]
+                else:
+                    bl = [Bond(obj(0), obj(n - 1)), Bond(f1, f2)]
+                    new = [(f1, "F"), (f2, "Cl")]
+                    newpairs = lambda ids: [_pair(aid_at(0), aid_at(n - 1)), _pair(ids[0], ids[1])]
             else:
                 bl = []
                 newpairs = lambda ids: []
@@ -1757,7 +1784,7 @@ def _repro_of(hist, pose):
         elif k == "delbond":
             L.append(f"m.del_bond(m.bonds[{op[1]}])")
         elif k == "xbonds":
-            mk = {"m": "[Bond(m.atoms[0], m.atoms[1])] + ([Bond(m.atoms[0], m.atoms[2])] if m.n_atoms > 2 else [])", "f": "[Bond(m.atoms[-1], f), Bond(f, Atom('Cl'))]", "e": "[]"}[op[3]]
+            mk = {"m": "[Bond(m.atoms[0], m.atoms[1])] + ([Bond(m.atoms[0], m.atoms[2])] if m.n_atoms > 2 else [])", "f": "[Bond(m.atoms[-1], f), Bond(f, Atom('Cl'))]", "e": "[]", "f2": "[Bond(f, Atom('Cl'))]", "f2m": "[Bond(f, Atom('Cl')), Bond(m.atoms[0], f)]", "fa1": "[Bond(f, m.atoms[-1])]", "mf2": "[Bond(m.atoms[0], m.atoms[-1]), Bond(f, Atom('Cl'))]"}[op[3]]
             wrap = {"list": "bl", "tuple": "tuple(bl)", "set": "set(bl[:1])", "gen": "(b for b in bl)", "iter": "iter(bl)", "map": "map(lambda b: b, bl)"}[op[2]]
             L.append(f"f = Atom('F'); bl = {mk}")
             L.append(f"m.extend_bonds({wrap})" if op[1] == "extend" else f"m.append_bonds(*{wrap})")
